@@ -12,7 +12,7 @@ env:   MUT_JOBS (default 6), MUT_LIMIT (max mutants per file, default all)
 import os, re, sys, json, subprocess, shutil, tempfile, concurrent.futures as cf
 
 REPO = os.environ.get('NFS_REPO', '/repo')
-VERIF = '/verif'
+VERIF = os.environ.get('MUT_VERIF', '/verif')
 ENV = dict(os.environ, GOFLAGS='-mod=mod', GOPROXY='off', GOSUMDB='off', GOTOOLCHAIN='local')
 ENV.pop('GOWORK', None)
 CHECKS = os.environ.get('MUT_CHECKS','C01 C02 C03 C04 C05 C06 C07 C08 C09 C10 C11 C12 C14 C16 C17 C18 C19 C20').split()
@@ -116,7 +116,12 @@ def run_one(args):
         r = subprocess.run([VERIF + '/bin/nfsverif','check'] + CHECKS, env=e, capture_output=True, text=True)
         fired = sorted(set(re.findall(r'^(?:VIOLATED|UNDECIDED) rule=(\S+)', r.stdout, re.M)))
         props = sorted(set(re.findall(r'^VIOLATION property=(\S+)', r.stdout, re.M)))
-        return dict(file=rel, line=line, mut=desc, result='caught' if props else 'survived', rules=fired, props=props, text=newsrc.split('\n')[line-1].strip())
+        res = dict(file=rel, line=line, mut=desc, result='caught' if props else 'survived', rules=fired, props=props, text=newsrc.split('\n')[line-1].strip())
+        if not props and os.environ.get('MUT_TESTS'):
+            # does the unedited suite notice the mutant? (only survivors are asked)
+            t = subprocess.run(['go','test','-vet=off','-count=1','./...'], cwd=d, env=ENV, capture_output=True, text=True)
+            res['tests'] = 'pass' if t.returncode == 0 else 'fail'
+        return res
     finally:
         open(path, 'w').write(orig)
 
